@@ -21,8 +21,11 @@ RULE = ('(a) schedules: 2-3 worker threads each compile and evaluate a distinct,
         'history crossed the cache capacity; distinct by schedule / history.')
 ASSUMPTIONS = ['interleavings are at source-line granularity inside hszinc\'s Python code; C code (lru_cache, dict operations) '
                'is atomic under the GIL, as in production CPython',
-               'the small-capacity runs replace hszinc.grid_filter._filter_function in the harness process by '
-               'lru_cache(maxsize=8) of the same undecorated function']
+               'the small-capacity runs replace the one lru_cache-wrapped function of hszinc.grid_filter (found by shape: '
+               'cache_clear + __wrapped__) in the harness process by lru_cache(maxsize=8) of the same undecorated function; '
+               'if there is no such function the histories run against the cache as it is',
+               'a worker whose OS thread sleeps without using CPU while another worker is paused is blocked on a lock the '
+               'paused worker holds: it is left in flight and another worker is resumed']
 FEATURES = {'filter.name-race': 'two threads compiling different filters at the same time can get the same generated function '
                                 'name, so one filter evaluates the other\'s code'}
 EXHAUSTIVE_CLAIM = True
